@@ -1,1 +1,8 @@
 import BemppVerif.Model.Quad
+import BemppVerif.Model.Topo
+import BemppVerif.Model.Geom
+import BemppVerif.Model.IOMap
+import BemppVerif.Model.Color
+import BemppVerif.Model.Sched
+import BemppVerif.Model.Hist
+import BemppVerif.Model.Solve
